@@ -393,21 +393,48 @@ type counters struct {
 	realHistories int64
 }
 
-// u64set is a sharded concurrent set of hashes (distinct counters shared by all workers).
+// u64set is a sharded concurrent set of 64-bit hashes (distinct counters shared
+// by all workers); open addressing keeps it at ~16 bytes per entry.
 type u64set struct {
 	shards [64]struct {
-		mu sync.Mutex
-		m  map[uint64]struct{}
+		mu  sync.Mutex
+		tab []uint64 // 0 = empty
+		n   int
 	}
 }
 
 func (s *u64set) add(k uint64) {
+	if k == 0 {
+		k = 1
+	}
 	sh := &s.shards[k&63]
 	sh.mu.Lock()
-	if sh.m == nil {
-		sh.m = map[uint64]struct{}{}
+	if sh.n*2 >= len(sh.tab) {
+		old := sh.tab
+		size := 1024
+		if len(old) > 0 {
+			size = len(old) * 2
+		}
+		sh.tab = make([]uint64, size)
+		for _, v := range old {
+			if v != 0 {
+				i := (v >> 6) & uint64(size-1)
+				for sh.tab[i] != 0 {
+					i = (i + 1) & uint64(size-1)
+				}
+				sh.tab[i] = v
+			}
+		}
 	}
-	sh.m[k] = struct{}{}
+	mask := uint64(len(sh.tab) - 1)
+	i := (k >> 6) & mask
+	for sh.tab[i] != 0 && sh.tab[i] != k {
+		i = (i + 1) & mask
+	}
+	if sh.tab[i] == 0 {
+		sh.tab[i] = k
+		sh.n++
+	}
 	sh.mu.Unlock()
 }
 
@@ -415,7 +442,7 @@ func (s *u64set) len() int {
 	n := 0
 	for i := range s.shards {
 		s.shards[i].mu.Lock()
-		n += len(s.shards[i].m)
+		n += s.shards[i].n
 		s.shards[i].mu.Unlock()
 	}
 	return n
@@ -734,6 +761,28 @@ func (f *failure) message(hs *hist) string {
 	return fmt.Sprintf("%s\n%safter step %d: %s\n  spec replayed alone: %s\n  isolated: %s\n  observed: %s", f.Kind, hs.String(), f.Step, f.What, f.Spec, f.Expected, f.Observed)
 }
 
+// outOfScope: the Count-then-Find idiom reuses a chain object after a finisher,
+// which gorm only supports through Count's mutate-and-restore; with pending
+// Scopes the scopes run (and are consumed) during the Count, so the Find is by
+// construction a different chain. Such histories are not executed.
+func outOfScope(hs *hist) bool {
+	has := func(l []int) bool {
+		for _, x := range l {
+			if ops[x].Kind == "SCOPES" {
+				return true
+			}
+		}
+		return false
+	}
+	if hs.FinA == fCountFind && (has(hs.Base) || has(hs.A)) {
+		return true
+	}
+	if hs.FinB == fCountFind && (has(hs.Base) || has(hs.B)) {
+		return true
+	}
+	return false
+}
+
 // tags are computed from the input only.
 func tags(hs *hist) []string {
 	var t []string
@@ -773,6 +822,35 @@ func tags(hs *hist) []string {
 	}
 	if retBase >= 2 && retA >= 1 && retB >= 1 {
 		t = append(t, "returning-merged-in-base-and-both-forks-add-returning")
+	}
+	// Where.Build moves the first non-OR expression to the front inside the array shared with the handle
+	firstWhereIsOr, laterNonOr, baseUnscoped := false, false, false
+	seenWhere := false
+	for _, x := range hs.Base {
+		o := ops[x]
+		if o.Kind == "UNSCOPED" {
+			baseUnscoped = true
+		}
+		if o.Kind != "WHERE" || o.UsesH {
+			continue
+		}
+		if !seenWhere {
+			seenWhere = true
+			firstWhereIsOr = o.IsOr
+		} else if !o.IsOr {
+			laterNonOr = true
+		}
+	}
+	forkUnscoped := false
+	for _, l := range [][]int{hs.A, hs.B} {
+		for _, x := range l {
+			if ops[x].Kind == "UNSCOPED" {
+				forkUnscoped = true
+			}
+		}
+	}
+	if firstWhereIsOr && laterNonOr && !baseUnscoped && forkUnscoped {
+		t = append(t, "handle-where-starts-with-or-and-a-fork-is-unscoped")
 	}
 	if usesH && baseScopes > 0 {
 		t = append(t, "live-handle-with-scopes-passed-as-group-condition")
